@@ -28,8 +28,9 @@ import (
 
 	"github.com/polynetwork/poly/common"
 	"github.com/polynetwork/poly/common/config"
-	"github.com/polynetwork/poly/core/types"
 	scommon "github.com/polynetwork/poly/core/store/common"
+	"github.com/polynetwork/poly/core/types"
+	"github.com/polynetwork/poly/native"
 	polyeth "github.com/polynetwork/poly/native/service/header_sync/eth"
 	"github.com/polynetwork/poly/native/service/utils"
 )
@@ -56,6 +57,8 @@ func (t tuple) sig() string {
 }
 
 type monitor struct {
+	cur     string            // contract.method of the native call being executed
+	tally   map[string]string // vote-tally key -> the approving method that owns it
 	r       *kit.Run
 	byKey   map[string]tuple
 	events  int
@@ -68,7 +71,7 @@ type monitor struct {
 }
 
 func newMonitor(r *kit.Run) *monitor {
-	return &monitor{r: r, byKey: map[string]tuple{}, shapes: map[string]map[int]map[int]bool{}, nparts: map[string]map[int]bool{}, kinds: map[common.Address]map[string]bool{}}
+	return &monitor{r: r, tally: map[string]string{}, byKey: map[string]tuple{}, shapes: map[string]map[int]map[int]bool{}, nparts: map[string]map[int]bool{}, kinds: map[common.Address]map[string]bool{}}
 }
 
 func printable(s string) bool {
@@ -109,6 +112,21 @@ func (m *monitor) onKey(contract common.Address, parts [][]byte, result []byte) 
 			m.shapes[sk][i] = map[int]bool{}
 		}
 		m.shapes[sk][i][len(p)] = true
+	}
+	// vote tallies (node_manager "consensusSigns" ‖ sha256(method ‖ request)) belong to ONE approving
+	// method: the same tally key reached from two different methods means two different logical
+	// tallies share a record
+	if kd == "consensusSigns" && m.cur != "" {
+		if owner, seen := m.tally[k]; !seen {
+			m.tally[k] = m.cur
+		} else if owner != m.cur {
+			a, b := owner, m.cur
+			if a > b {
+				a, b = b, a
+			}
+			m.r.Violation("vote-tally-key-shared-by-methods:"+a+"|"+b,
+				fmt.Sprintf("the approval tally record %x is used by %s and by %s", result, a, b), map[string]interface{}{"key": kit.Hex(result)})
+		}
 	}
 	old, ok := m.byKey[k]
 	if !ok {
@@ -163,6 +181,8 @@ func runWorkloads(r *kit.Run, tag string, pal func() *workloads.Palette, rounds 
 	for round := 0; round < rounds; round++ {
 		workloads.Gov(r, r.Rand(fmt.Sprintf("%s/gov/%d", tag, round)), pal())
 		workloads.GovLists(r, r.Rand(fmt.Sprintf("%s/govlists/%d", tag, round)), pal())
+		workloads.BtcGov(r, r.Rand(fmt.Sprintf("%s/btcgov/%d", tag, round)), pal())
+		workloads.Relayers(r, r.Rand(fmt.Sprintf("%s/relayers/%d", tag, round)), pal())
 		workloads.GenesisAll(r, r.Rand(fmt.Sprintf("%s/genesis/%d", tag, round)), pal())
 		for _, name := range []string{"eth", "bsc", "heco", "hsc", "pixie", "bytom", "msc"} {
 			workloads.EVM(r, r.Rand(fmt.Sprintf("%s/evm/%s/%d", tag, name, round)), pal(), name, uint64(2000+round))
@@ -184,7 +204,12 @@ func TestC17(t *testing.T) {
 	m := newMonitor(r)
 	utils.VerifConcatKeyHook = m.onKey
 	nat.Observer = m.onCall
-	defer func() { utils.VerifConcatKeyHook = nil; nat.Observer = nil }()
+	nat.ExecHook = func(e *nat.Env, run func() (*nat.CallRecord, *native.NativeService)) (*nat.CallRecord, *native.NativeService) {
+		rec, svc := run()
+		return rec, svc
+	}
+	nat.BeforeCall = func(contract common.Address, method string) { m.cur = fmt.Sprintf("%x.%s", contract[18:], method) }
+	defer func() { utils.VerifConcatKeyHook = nil; nat.Observer = nil; nat.ExecHook = nil; nat.BeforeCall = nil }()
 
 	rounds := r.N(1, 5)
 	runWorkloads(r, "p1", func() *workloads.Palette { return nil }, rounds)
@@ -218,7 +243,9 @@ func TestC17(t *testing.T) {
 			}
 		}
 	}
-	sort.Slice(pairs, func(i, j int) bool { return pairs[i].Contract+pairs[i].Kind+pairs[i].LongerKind < pairs[j].Contract+pairs[j].Kind+pairs[j].LongerKind })
+	sort.Slice(pairs, func(i, j int) bool {
+		return pairs[i].Contract+pairs[i].Kind+pairs[i].LongerKind < pairs[j].Contract+pairs[j].Kind+pairs[j].LongerKind
+	})
 	sort.Slice(chainIDs, func(i, j int) bool { return chainIDs[i] < chainIDs[j] })
 	sort.Slice(blobs, func(i, j int) bool { return bytes.Compare(blobs[i], blobs[j]) < 0 })
 	r.Set("kind_prefix_pairs", pairs)
